@@ -132,6 +132,7 @@ func TestC09Flow(t *testing.T) {
 	rapid.Check(t, func(rt *rapid.T) {
 		g := newSgen(rt, flowCtx(rt))
 		g.x.spies = false
+		g.kwsp = rapid.IntRange(0, 2).Draw(rt, "kwspacing") == 0
 		body := g.program(rapid.IntRange(1, scale(3, 4)).Draw(rt, "depth"))
 		c := ProgCase{Ctx: g.x.ctx, Body: body}
 		if runModel(TSet{{Name: "main", Body: body}}, "main", c.Ctx, 0).domain {
